@@ -24,7 +24,7 @@ for p in props:
         na.append(dict(property_id=i, reason=(t or {}).get("reason", "not yet covered by this build of the framework (planned: DESIGN.md §4 %s); no claim is made" % i)))
 m = dict(
     version=1,
-    setup_cmd="cd lean && lake build",
+    setup_cmd="/venv/bin/python -m harness.setup",
     hooks=dict(guard="OAS_VERIF", enable="no source hooks are needed: the harness reads component internals from outside",
                baseline_off_cmd="cd /repo && /venv/bin/python -m pytest -ra -q -p no:cacheprovider --timeout=900 --continue-on-collection-errors",
                source_commits=[], add_only=True),
